@@ -91,6 +91,48 @@ func c06EvalKey(w *mc.W, cas c06Key) {
 		if !bytes.Equal(d.SerializePubKey(), wantPub) {
 			fail("decoded-public-key-serialisation-wrong", "")
 		}
+		// WIF is a plain struct with exported fields: the string is a function of the fields AS THEY
+		// ARE when String is called (a caller re-exporting an imported legacy key as compressed sets
+		// the flag; one rotating a key sets PrivKey).  Anything remembered from the decoded string or
+		// from an earlier String call must not survive a field assignment.
+		otherKey := make([]byte, 32)
+		copy(otherKey, kb)
+		otherKey[31] ^= 0x5a
+		otherKey[7] ^= 0x01
+		if new(big.Int).SetBytes(otherKey).Sign() == 0 {
+			otherKey[31] = 1
+		}
+		oPriv, _ := bchec.PrivKeyFromBytes(bchec.S256(), otherKey)
+		oPt := ref.SecBaseMulFast(new(big.Int).SetBytes(otherKey))
+		for wi, x := range []*bchutil.WIF{wif, d} {
+			who := []string{"NewWIF", "DecodeWIF"}[wi]
+			x.CompressPubKey = !cas.Compressed
+			if got, want := x.String(), ref.WIFEncode(rn.WIFID, kb, !cas.Compressed); got != want {
+				fail("string-ignores-the-compression-flag-assigned-after-"+who, fmt.Sprintf("got %s want %s", got, want))
+			}
+			wp := pt.Compressed()
+			if cas.Compressed {
+				wp = pt.Uncompressed()
+			}
+			if !bytes.Equal(x.SerializePubKey(), wp) {
+				fail("public-key-ignores-the-compression-flag-assigned-after-"+who, "")
+			}
+			x.CompressPubKey = cas.Compressed
+			if got := x.String(); got != s {
+				fail("string-wrong-after-flag-assigned-back-after-"+who, got)
+			}
+			x.PrivKey = oPriv
+			if got, want := x.String(), ref.WIFEncode(rn.WIFID, otherKey, cas.Compressed); got != want {
+				fail("string-ignores-the-key-assigned-after-"+who, fmt.Sprintf("got %s want %s", got, want))
+			}
+			wp = oPt.Uncompressed()
+			if cas.Compressed {
+				wp = oPt.Compressed()
+			}
+			if !bytes.Equal(x.SerializePubKey(), wp) {
+				fail("public-key-ignores-the-key-assigned-after-"+who, "")
+			}
+		}
 		if kb[0] == 0 {
 			w.Outcome("round trip: scalar with leading zero bytes")
 			w.Nontrivial(mc.HashString(cas.Scalar, cas.Net))
@@ -370,6 +412,9 @@ func runC06(c *mc.Ctx) {
 					raws = append(raws, c06Raw{StrHex: mc.Hex([]byte(str[:pos] + string([]byte{byte(v)}) + str[pos:])), Why: "one byte inserted into the string"})
 				}
 			}
+		}
+		for _, m := range runeSubstitutions(str) {
+			raws = append(raws, c06Raw{StrHex: mc.Hex([]byte(m)), Why: "one character of the string replaced by a multi-byte character a rune-wise decoder may take for it"})
 		}
 		for v := 0; v < 256; v++ { // every network byte
 			b := append([]byte{}, full...)
